@@ -87,11 +87,13 @@ type Emitter struct {
 	tagList  []string
 	boxes    map[Sort]bool
 	ufuns    map[string]string // name -> signature
+	defs     map[string]string // defined name -> body
+	born     map[string]int    // declared/defined name -> counter value at creation
 }
 
 func NewEmitter() *Emitter {
 	return &Emitter{litNames: map[string]string{}, dtDone: map[string]Sort{}, declared: map[string]bool{},
-		tags: map[string]int{}, boxes: map[Sort]bool{}, ufuns: map[string]string{}}
+		tags: map[string]int{}, boxes: map[Sort]bool{}, ufuns: map[string]string{}, defs: map[string]string{}, born: map[string]int{}}
 }
 
 func q(name string) string {
@@ -106,6 +108,7 @@ func (e *Emitter) freshName(prefix string) string {
 
 func (e *Emitter) Fresh(prefix string, s Sort) string {
 	n := e.freshName(prefix)
+	e.born[n] = e.n
 	e.lines = append(e.lines, fmt.Sprintf("(declare-const %s %s)", n, s))
 	return n
 }
@@ -115,18 +118,23 @@ func (e *Emitter) Define(prefix string, s Sort, term string) string {
 		return term
 	}
 	n := e.freshName(prefix)
+	e.born[n] = e.n
+	e.defs[n] = term
 	e.lines = append(e.lines, fmt.Sprintf("(define-fun %s () %s %s)", n, s, term))
 	return n
 }
 
 func (e *Emitter) DefineRaw(prefix string, sortText string, term string) string {
 	n := e.freshName(prefix)
+	e.born[n] = e.n
+	e.defs[n] = term
 	e.lines = append(e.lines, fmt.Sprintf("(define-fun %s () %s %s)", n, sortText, term))
 	return n
 }
 
 func (e *Emitter) FreshRaw(prefix string, sortText string) string {
 	n := e.freshName(prefix)
+	e.born[n] = e.n
 	e.lines = append(e.lines, fmt.Sprintf("(declare-const %s %s)", n, sortText))
 	return n
 }
@@ -182,8 +190,8 @@ func (e *Emitter) StrLit(s string) string {
 		return n
 	}
 	if s == "" {
-		e.litNames[s] = "str.empty"
-		return "str.empty"
+		e.litNames[s] = "gs.empty"
+		return "gs.empty"
 	}
 	show := s
 	if len(show) > 24 {
@@ -198,12 +206,12 @@ func (e *Emitter) StrLit(s string) string {
 	n := q(fmt.Sprintf("lit%d:%s", len(e.litNames), show))
 	e.litNames[s] = n
 	e.lits = append(e.lits, fmt.Sprintf("(declare-const %s Str)", n))
-	e.lits = append(e.lits, fmt.Sprintf("(assert (= (str.len %s) %d))", n, len(s)))
+	e.lits = append(e.lits, fmt.Sprintf("(assert (= (gs.len %s) %d))", n, len(s)))
 	if len(s) <= 64 {
 		var b strings.Builder
 		b.WriteString("(assert (and true")
 		for i := 0; i < len(s); i++ {
-			fmt.Fprintf(&b, " (= (str.at %s %d) %d)", n, i, s[i])
+			fmt.Fprintf(&b, " (= (gs.at %s %d) %d)", n, i, s[i])
 		}
 		b.WriteString("))")
 		e.lits = append(e.lits, b.String())
@@ -454,36 +462,36 @@ const preludeText = `(set-option :produce-models true)
 (declare-sort Str 0)
 (declare-datatypes ((Slice 0)) (((mkSlice (s.arr Int) (s.off Int) (s.len Int) (s.cap Int)))))
 (declare-datatypes ((Iface 0)) (((mkIface (i.tag Int) (i.val Int)))))
-(declare-fun str.len (Str) Int)
-(declare-fun str.at (Str Int) Int)
-(declare-const str.empty Str)
-(assert (= (str.len str.empty) 0))
-(assert (forall ((s Str)) (! (>= (str.len s) 0) :pattern ((str.len s)))))
-(assert (forall ((s Str) (i Int)) (! (and (<= 0 (str.at s i)) (<= (str.at s i) 255)) :pattern ((str.at s i)))))
-(assert (forall ((s Str)) (! (=> (= (str.len s) 0) (= s str.empty)) :pattern ((str.len s)))))
-(declare-fun str.cat (Str Str) Str)
-(assert (forall ((a Str) (b Str)) (! (= (str.len (str.cat a b)) (+ (str.len a) (str.len b))) :pattern ((str.cat a b)))))
-(assert (forall ((a Str) (b Str) (i Int)) (! (= (str.at (str.cat a b) i) (ite (< i (str.len a)) (str.at a i) (str.at b (- i (str.len a))))) :pattern ((str.at (str.cat a b) i)))))
-(declare-fun str.sub (Str Int Int) Str)
-(assert (forall ((a Str) (l Int) (h Int)) (! (=> (and (<= 0 l) (<= l h) (<= h (str.len a))) (= (str.len (str.sub a l h)) (- h l))) :pattern ((str.sub a l h)))))
-(assert (forall ((a Str) (l Int) (h Int) (i Int)) (! (=> (and (<= 0 l) (<= l h) (<= h (str.len a)) (<= 0 i) (< i (- h l))) (= (str.at (str.sub a l h) i) (str.at a (+ l i)))) :pattern ((str.at (str.sub a l h) i)))))
-(declare-fun str.lt (Str Str) Bool)
+(declare-fun gs.len (Str) Int)
+(declare-fun gs.at (Str Int) Int)
+(declare-const gs.empty Str)
+(assert (= (gs.len gs.empty) 0))
+(assert (forall ((s Str)) (! (>= (gs.len s) 0) :pattern ((gs.len s)))))
+(assert (forall ((s Str) (i Int)) (! (and (<= 0 (gs.at s i)) (<= (gs.at s i) 255)) :pattern ((gs.at s i)))))
+(assert (forall ((s Str)) (! (=> (= (gs.len s) 0) (= s gs.empty)) :pattern ((gs.len s)))))
+(declare-fun gs.cat (Str Str) Str)
+(assert (forall ((a Str) (b Str)) (! (= (gs.len (gs.cat a b)) (+ (gs.len a) (gs.len b))) :pattern ((gs.cat a b)))))
+(assert (forall ((a Str) (b Str) (i Int)) (! (= (gs.at (gs.cat a b) i) (ite (< i (gs.len a)) (gs.at a i) (gs.at b (- i (gs.len a))))) :pattern ((gs.at (gs.cat a b) i)))))
+(declare-fun gs.sub (Str Int Int) Str)
+(assert (forall ((a Str) (l Int) (h Int)) (! (=> (and (<= 0 l) (<= l h) (<= h (gs.len a))) (= (gs.len (gs.sub a l h)) (- h l))) :pattern ((gs.sub a l h)))))
+(assert (forall ((a Str) (l Int) (h Int) (i Int)) (! (=> (and (<= 0 l) (<= l h) (<= h (gs.len a)) (<= 0 i) (< i (- h l))) (= (gs.at (gs.sub a l h) i) (gs.at a (+ l i)))) :pattern ((gs.at (gs.sub a l h) i)))))
+(declare-fun gs.lt (Str Str) Bool)
 (declare-fun map.len (Int) Int)
 (define-fun go.div ((a Int) (b Int)) Int (ite (>= a 0) (ite (> b 0) (div a b) (- (div a (- b)))) (ite (> b 0) (- (div (- a) b)) (div (- a) (- b)))))
 (define-fun go.mod ((a Int) (b Int)) Int (- a (* b (go.div a b))))
 (declare-fun implements (Int Int) Bool)
-(define-fun slice.wf ((s Slice)) Bool (and (<= 0 (s.off s)) (<= 0 (s.len s)) (<= (s.len s) (s.cap s))))
+(define-fun slice.wf ((s Slice)) Bool (and (<= 0 (s.off s)) (<= 0 (s.len s)) (<= (s.len s) (s.cap s)) (<= 0 (s.arr s)) (=> (= (s.arr s) 0) (= (s.cap s) 0))))
 `
 
 // strEqExt states extensional equality for two string terms (used when a goal needs s == t proved).
 func strEqAxiom() string {
-	return `(assert (forall ((a Str) (b Str)) (! (=> (and (= (str.len a) (str.len b)) (forall ((i Int)) (=> (and (<= 0 i) (< i (str.len a))) (= (str.at a i) (str.at b i))))) (= a b)) :pattern ((str.ext a b)))))`
+	return `(assert (forall ((a Str) (b Str)) (! (=> (and (= (gs.len a) (gs.len b)) (forall ((i Int)) (=> (and (<= 0 i) (< i (gs.len a))) (= (gs.at a i) (gs.at b i))))) (= a b)) :pattern ((gs.ext a b)))))`
 }
 
 func (e *Emitter) Prelude() string {
 	var b strings.Builder
 	b.WriteString(preludeText)
-	b.WriteString("(declare-fun str.ext (Str Str) Bool)\n")
+	b.WriteString("(declare-fun gs.ext (Str Str) Bool)\n")
 	b.WriteString(strEqAxiom() + "\n")
 	for _, d := range e.dts {
 		b.WriteString(d + "\n")
@@ -637,4 +645,39 @@ type toolLimitErr struct{ msg string }
 func (t toolLimitErr) Error() string { return t.msg }
 func toolLimit(f string, a ...any) toolLimitErr {
 	return toolLimitErr{fmt.Sprintf(f, a...)}
+}
+
+// expandStable rewrites term over symbols that existed when the counter was n1 (definitions made
+// later are unfolded). ok is false if the term depends on a constant declared after n1.
+func (e *Emitter) expandStable(term string, n1 int) (string, bool) {
+	var b strings.Builder
+	i := 0
+	for i < len(term) {
+		if term[i] != '|' {
+			b.WriteByte(term[i])
+			i++
+			continue
+		}
+		j := strings.IndexByte(term[i+1:], '|')
+		if j < 0 {
+			return "", false
+		}
+		name := term[i : i+j+2]
+		i += j + 2
+		born, isNew := e.born[name]
+		if !isNew || born <= n1 {
+			b.WriteString(name)
+			continue
+		}
+		body, isDef := e.defs[name]
+		if !isDef {
+			return "", false
+		}
+		x, ok := e.expandStable(body, n1)
+		if !ok || b.Len()+len(x) > 4000 {
+			return "", false
+		}
+		b.WriteString(x)
+	}
+	return b.String(), true
 }
